@@ -1,7 +1,7 @@
 """C03 (capital / O&M roll-up), and the Economics.Calculate-level clauses of C04 (cash-flow assembly, payback) and
 C16 (price padding, PTC duration, ITC / grants / fees) - all as postconditions of the real Economics.Calculate.
 
-Post-state only; every Valid/Provided flag is a free Boolean, end-use x plant type are enumerated (72 snapshots of
+Post-state only; every Valid/Provided flag is a free Boolean, end-use x plant type are enumerated (65 snapshots the reader accepts, of
 the real classes), component correlations are whatever expression the code computes ('the components').  Callees
 are used through their contracts (BuildPTCModel, BuildPricingModel, CalculateRevenue, CalculateCarbonRevenue,
 CalculateFinancialPerformance, CalculateLCOELCOHLCOC, the well-cost helpers)."""
@@ -98,6 +98,10 @@ class EconomicsCalculate(Contract):
         out = []
         for e in (1, 2, 31, 32, 41, 42, 51, 52):
             for p in range(1, 10):
+                if p == 7 and e != 2:
+                    # unreachable: Model.read_parameters raises AttributeError (CalculateDHDemand on a power plant
+                    # object) for district heating with a non-heat end-use, so Calculate is never entered
+                    continue
                 out.append((f"enduse={e},plant={p}", {"_enduse": enum_by_int(EndUseOptions, e),
                                                        "_plant": enum_by_int(PlantType, p)}))
         return out
@@ -110,7 +114,7 @@ class EconomicsCalculate(Contract):
         if tier == "thorough":
             return cfgs
         # quick tier: one representative per behaviour class of Economics.Calculate (end-use family x plant branch);
-        # the thorough tier enumerates all 72 end-use x plant-type configurations
+        # the thorough tier enumerates all 65 end-use x plant-type configurations the reader accepts
         return [(l, c) for l, c in cfgs if (c["_enduse"].int_value, c["_plant"].int_value) in self.QUICK]
 
     def ensure_filter(self, pid):
